@@ -170,6 +170,13 @@ Record xcallsite := mkXCall { x_field : string; x_class : string; x_callee : str
 (* what a destructor does beyond its body: at its closing brace it destroys the synchronisation members of the object
    (d_destroys: member, line); before that it may join the object's thread: d_join = None - no join() on any path;
    Some gs - join() on the paths selected by conditions that read the members gs ([] = unconditionally) *)
+(* one argument bound (decay-copied by std::bind / makeWeakCallback) into a functor that is handed to
+   runInLoop/queueInLoop/runAfter/runAt/runEvery for the method pa_class::pa_callee.  pa_kind:
+   "val" an owned copy (std::string, shared_ptr, weak_ptr, std::function, arithmetic, TimerId ...), "transfer" a pointer to
+   an object allocated in the posting function itself (ownership goes with the functor);
+   "view" a StringPiece, "ptr" a raw pointer into memory the caller owns, "ref" a std::ref: BORROWED - the functor
+   reads memory whose lifetime the caller controls; "this" / "member": the raw `this` / a pointer to a member-owned object. *)
+Record postarg := mkPA { pa_class : string; pa_callee : string; pa_kind : string; pa_inloop : bool; pa_line : Z }.
 Record dtorinfo := mkDtor { d_destroys : list (string * Z); d_join : option (list string) }.
 Record msummary := mkSummary {
   m_class : string; m_name : string; m_public : bool; m_kind : mkind;
@@ -179,13 +186,19 @@ Record msummary := mkSummary {
   m_registers : list (string * string);  (* bound as a callback elsewhere *)
   m_tails : list (string * list string); (* (g, ms): after its last write of member g the body still uses the members ms
                                             (later accesses, locks held at that write and released afterwards) *)
+  m_postargs : list postarg;
   m_dtor : option dtorinfo }.
 Record fielddecl := mkFieldDecl { fd_class : string; fd_name : string; fd_atomic : bool; fd_sync : bool; fd_tls : bool }.
 Record ptable := mkTable { t_fields : list (string * string * pclass);
                            t_methods : list (string * string * contract);
                            t_decls : list fielddecl;
-                           t_exitflags : list (string * string) (* storing the member lets the owner thread end its loop and
-                                                                    destroy the object (EventLoop::quit_) *) }.
+                           t_exitflags : list (string * string); (* storing the member lets the owner thread end its loop and
+                                                                     destroy the object (EventLoop::quit_) *)
+                           t_shared : list string;                (* classes deriving from enable_shared_from_this (AST fact):
+                                                                     their lifetime is a reference count, not the caller's scope *)
+                           t_lifetime_ok : list (string * string * string)
+                             (* (class, posting method, callee): a raw-`this` post whose object is kept alive by other means,
+                                justified in lib/C08_table.txt *) }.
 Record violation := mkViol { v_class : string; v_site : string; v_what : string; v_kind : string }.
 
 Definition seqb := String.eqb.
@@ -434,6 +447,53 @@ Definition teardown_violations (T : ptable) (S : list msummary) : list violation
                (d_destroys d)
     end) S.
 
+(* borrowed captures: on the cross-thread branch (context XAny, not upgraded by isInLoopThread()) a functor posted to the
+   loop runs LATER on another thread; the enqueue orders what the poster did BEFORE it, nothing it does afterwards.  So the
+   functor must own what it reads: a bound StringPiece / raw pointer / std::ref reads memory the caller may rewrite or
+   free as soon as the posting call returns ("borrowed-view/ptr/ref"); the raw `this` (or a pointer to a member-owned
+   object) of a class whose lifetime is a shared_ptr reference count reads an object the last owner may drop ("rawthis")
+   - unless the table justifies it (lifetime-ok). *)
+Fixpoint lookup3 (a b c : string) (l : list (string * string * string)) : bool :=
+  match l with
+  | [] => false
+  | (a', b', c') :: r => (seqb a a' && seqb b b' && seqb c c') || lookup3 a b c r
+  end.
+
+Definition borrow_kind (T : ptable) (cls meth : string) (pa : postarg) (ctx : mctx) : option string :=
+  match upgrade (pa_inloop pa) ctx with
+  | XAny =>
+      if seqb (pa_kind pa) "view" || seqb (pa_kind pa) "ptr" || seqb (pa_kind pa) "ref"
+      then Some ("borrowed-" ++ pa_kind pa)
+      else if (seqb (pa_kind pa) "this" || seqb (pa_kind pa) "member") && mem cls (t_shared T)
+                && negb (lookup3 cls meth (pa_callee pa) (t_lifetime_ok T))
+      then Some "rawthis"
+      else None
+  | _ => None
+  end.
+
+Fixpoint collect_posts (fuel : nat) (T : ptable) (S : list msummary) (cls root : string)
+                       (m : msummary) (ctx : mctx) : list violation :=
+  flat_map (fun pa => match borrow_kind T cls (m_name m) pa ctx with
+                      | Some k => [mkViol cls (site_name root (m_name m)) (pa_callee pa) k]
+                      | None => []
+                      end) (m_postargs m)
+  ++ match fuel with
+     | 0 => []
+     | Datatypes.S fuel' =>
+       flat_map (fun c =>
+         match contract_of T cls (c_callee c) with
+         | Some _ => []
+         | None => match find_method S cls (c_callee c) with
+                   | Some m' => collect_posts fuel' T S cls root m' (upgrade (c_inloop c) ctx)
+                   | None => []
+                   end
+         end) (m_calls m)
+     end.
+
+Definition borrow_violations (T : ptable) (S : list msummary) : list violation :=
+  flat_map (fun mk => let '(m, k) := mk in
+    collect_posts FUEL T S (m_class m) (m_name m) m (ctx_of_contract k)) (roots T S).
+
 (* use after release: an any-thread method that stores an exit flag has told the owner thread that it may leave its loop
    and destroy the object; whatever the method still touches afterwards off the loop thread (m_tails: later accesses and
    those of the methods it calls on `this`) may hit a destroyed object.  EventLoop::quit(): quit_ = true; wakeup(). *)
@@ -458,7 +518,7 @@ Fixpoint dedup (l : list violation) : list violation :=
 
 Definition violations_raw (T : ptable) (S : list msummary) : list violation :=
   access_violations T S ++ call_violations T S ++ failfast_violations T S ++ coverage_violations T S
-  ++ useafter_violations T S ++ teardown_violations T S.
+  ++ borrow_violations T S ++ useafter_violations T S ++ teardown_violations T S.
 Definition violations (T : ptable) (S : list msummary) : list violation := dedup (violations_raw T S).
 
 (* the obligation closed by vm_compute in Properties_C08.v: every violation of the regenerated summaries is a
